@@ -313,7 +313,8 @@ def _reduce(fold):
         keep = [i for i in range(a.ndim) if i not in axes]
         at = np.transpose(a, keep + list(axes))
         kshape = at.shape[: len(keep)]
-        at = at.reshape(kshape + (-1,))
+        nred = int(np.prod(at.shape[len(keep):], dtype=int))
+        at = at.reshape(kshape + (nred,))
         out = np.empty(kshape, dtype=object)
         for ix in np.ndindex(*kshape):
             out[ix] = fold(list(at[ix]))
